@@ -426,6 +426,8 @@ def _encode_lists(draw, ET, lists, cfg, allow_regular=True):
 def _encode_option(draw, ET, vals, cfg):
     n = len(vals)
     encs = [e for e in cfg.option_encodings if e != "UnmaskedArray" or all(v is not None for v in vals)]
+    if not encs:
+        encs = ["IndexedOptionArray64"]     # UnmaskedArray alone cannot hold a missing value
     enc = draw(st.sampled_from(encs))
     if not has_values(ET):
         # option[unknown] / option of a type without values: every entry is None
